@@ -497,12 +497,22 @@ def sig_probes(tables, pred, tier='quick'):
             ce = call_expr(prod)
             byval = prod['recv'] == 'RecvVal'
             mut = '' if byval else '    c.clear();\n'
+            # arguments of the iterator method itself (nth(n), nth_back(n), ...): synthesised like those of the cache's methods
+            iargs = []
+            for p_ in f.get('params', []):
+                a_ = synth_arg(p_, f['tparams'])
+                iargs.append(a_)
+            if any(a_ is None for a_ in iargs):
+                notes.append(dict(row=f['qname'], probed=False, has_borrow=has_b, why='no argument synthesis for its parameter types'))
+                continue
+            icall = '%s(%s)' % (f['name'], ', '.join(iargs))
+            dropit = '' if f['recv'] == 'RecvVal' else '    drop(it);\n'     # a by-value method (last, count, ...) consumes the iterator itself
             P.append(dict(name='%s__misuse_mutate' % base, group='sig-misuse', row=row,
-                          src=PRELUDE + 'fn main() {\n' + SETUP + '    let mut it = %s;\n    let held = it.%s();\n    drop(it);\n%s    use_it(held);\n}\n' % (ce, f['name'], mut),
+                          src=PRELUDE + 'fn main() {\n' + SETUP + '    let mut it = %s;\n    let held = it.%s;\n%s%s    use_it(held);\n}\n' % (ce, icall, dropit, mut),
                           demand='reject' if has_b else 'accept', codes=BORROW_CODES, predicted=pm,
                           why='an item of %s (from %s) is kept after the iterator is gone and the cache is mutated' % (st, prod['qname'])))
             P.append(dict(name='%s__legit' % base, group='sig-legit', row=row,
-                          src=PRELUDE + 'fn main() {\n' + SETUP + '    let mut it = %s;\n    let held = it.%s();\n    use_it(held);\n    drop(it);\n%s}\n' % (ce, f['name'], mut),
+                          src=PRELUDE + 'fn main() {\n' + SETUP + '    let mut it = %s;\n    let held = it.%s;\n    use_it(held);\n%s%s}\n' % (ce, icall, dropit, mut),
                           demand='accept', predicted='accept', why='item used before the cache is mutated'))
     return P, notes
 
